@@ -57,7 +57,20 @@ package main
 //                                    -> gen_ua_ok c r valid agentHash
 //   (*cache).compact: the `if` whose condition mentions SessionCacheExpiry
 //                                    -> gen_idle c r now
-// Each of these must be found exactly once.
+// Each of these must be found exactly once, and WHERE it stands is checked
+// too (pfStartLayout, pfCompactLayout: the look-up guard and `if session !=
+// nil` are statements of Start's body; staleness test, remote-address block,
+// user-agent test and `if !valid` are consecutive statements of the body of
+// `if session != nil`; the rotation test is the first statement of the else
+// branch of `if !valid`, the backstop test its `else if`; between the look-up
+// and the backstop condition nothing assigns to `session` or a field of it or
+// takes its address, except in the then-branch of `if !valid`; a once-defined
+// local is inlined only where its definition stands before the use in a
+// block enclosing it; the idle test is a statement of the body of `for ...,
+// session := range c.sessions` with no write to `session` before it).
+// Conventions: several time.Since calls inside one function are translated
+// with one `now` (the model's request reads the clock once); Go's int is
+// taken as 64-bit.
 
 import (
 	"fmt"
@@ -125,6 +138,10 @@ var pfFields = map[string]pfVal{
 }
 
 type pfEnv struct {
+	parents map[ast.Node]ast.Node        // of the enclosing function (position checks)
+	defStmt map[string]*ast.AssignStmt // the defining statement of each once-defined local
+	fn      string                  // the generated function's name (for the marks)
+	mark    func(ast.Node, string) // records an AST node as translated into a generated function
 	p       *pkg
 	where   string              // for error messages
 	recs    map[string]bool     // identifiers that denote the session record
@@ -164,6 +181,19 @@ func (e *pfEnv) expr(x ast.Expr) (pfVal, error) {
 		if d, ok := e.inline[n.Name]; ok {
 			if e.busy[n.Name] {
 				return pfVal{}, e.errf(n, "local variable defined in terms of itself")
+			}
+			if st := e.defStmt[n.Name]; st != nil && e.parents != nil {
+				// the definition must stand before the use, in a block that encloses it
+				encl := false
+				for x := ast.Node(n); x != nil; x = e.parents[x] {
+					if x == e.parents[st] {
+						encl = true
+						break
+					}
+				}
+				if _, isBlock := e.parents[st].(*ast.BlockStmt); !isBlock || !encl || st.End() > n.Pos() {
+					return pfVal{}, e.errf(n, "local variable whose definition `%s` does not stand before this use in a block enclosing it", oneLine(e.p.text(st)))
+				}
 			}
 			e.busy[n.Name] = true
 			v, err := e.expr(d)
@@ -463,6 +493,7 @@ func (e *pfEnv) body(stmts []ast.Stmt, ret pfType, indent string) (string, error
 			return "", e.errf(n, "if statement other than `if cond { return e }`")
 		}
 		c, err := e.expr(n.Cond)
+		e.note(n.Cond)
 		if err != nil {
 			return "", err
 		}
@@ -487,6 +518,7 @@ func (e *pfEnv) body(stmts []ast.Stmt, ret pfType, indent string) (string, error
 			return "", e.errf(n, "return that is not the last statement or does not return one value")
 		}
 		v, err := e.expr(n.Results[0])
+		e.note(n.Results[0])
 		if err != nil {
 			return "", err
 		}
@@ -506,6 +538,7 @@ func (e *pfEnv) body(stmts []ast.Stmt, ret pfType, indent string) (string, error
 func pfOnceDefined(e *pfEnv, fd *ast.FuncDecl) (map[string]ast.Expr, error) {
 	writes := map[string]int{}
 	defs := map[string]ast.Expr{}
+	stmts := map[string]*ast.AssignStmt{}
 	var err error
 	ast.Inspect(fd.Body, func(n ast.Node) bool {
 		switch x := n.(type) {
@@ -515,6 +548,7 @@ func pfOnceDefined(e *pfEnv, fd *ast.FuncDecl) (map[string]ast.Expr, error) {
 					writes[id.Name]++
 					if x.Tok == token.DEFINE && len(x.Lhs) == 1 && len(x.Rhs) == 1 && i == 0 {
 						defs[id.Name] = x.Rhs[0]
+						stmts[id.Name] = x
 					}
 				}
 			}
@@ -546,11 +580,14 @@ func pfOnceDefined(e *pfEnv, fd *ast.FuncDecl) (map[string]ast.Expr, error) {
 		return nil, err
 	}
 	res := map[string]ast.Expr{}
+	e.defStmt = map[string]*ast.AssignStmt{}
 	for name, d := range defs {
 		if writes[name] == 1 {
 			res[name] = d
+			e.defStmt[name] = stmts[name]
 		}
 	}
+	e.parents = pfParents(fd.Body)
 	return res, nil
 }
 
@@ -600,13 +637,310 @@ func pfCalls(n ast.Node, recv, name string) bool {
 	return found
 }
 
+
+// pfParents: child -> parent for every node below root.
+func pfParents(root ast.Node) map[ast.Node]ast.Node {
+	par := map[ast.Node]ast.Node{}
+	var stack []ast.Node
+	ast.Inspect(root, func(n ast.Node) bool {
+		if n == nil {
+			stack = stack[:len(stack)-1]
+			return true
+		}
+		if len(stack) > 0 {
+			par[n] = stack[len(stack)-1]
+		}
+		stack = append(stack, n)
+		return true
+	})
+	return par
+}
+
+// pfRecWrites: every place below root where the record variable rec, or a
+// field of it, is written syntactically: assignment, ++/--, address taken.
+func pfRecWrites(root ast.Node, rec string) []ast.Node {
+	isRec := func(x ast.Expr) bool {
+		for {
+			switch y := x.(type) {
+			case *ast.ParenExpr:
+				x = y.X
+				continue
+			case *ast.StarExpr:
+				x = y.X
+				continue
+			case *ast.SelectorExpr:
+				x = y.X
+				continue
+			case *ast.IndexExpr:
+				x = y.X
+				continue
+			case *ast.Ident:
+				return y.Name == rec
+			}
+			return false
+		}
+	}
+	var res []ast.Node
+	ast.Inspect(root, func(n ast.Node) bool {
+		switch x := n.(type) {
+		case *ast.AssignStmt:
+			for _, l := range x.Lhs {
+				if isRec(l) {
+					res = append(res, x)
+					break
+				}
+			}
+		case *ast.IncDecStmt:
+			if isRec(x.X) {
+				res = append(res, x)
+			}
+		case *ast.UnaryExpr:
+			if x.Op == token.AND && isRec(x.X) {
+				res = append(res, x)
+			}
+		case *ast.RangeStmt:
+			for _, kv := range []ast.Expr{x.Key, x.Value} {
+				if kv != nil && isRec(kv) && n != root {
+					res = append(res, x)
+				}
+			}
+		}
+		return true
+	})
+	return res
+}
+
+// pfLayout: where the translated fragments of Start stand. The translation
+// of a condition says what the condition means; that it is evaluated at the
+// point, and on the record, the model evaluates it is a matter of structure,
+// checked here (anything else is a translator error):
+//
+//   func Start(...) {
+//       ...
+//       if <look-up guard> { sessionIDMutexes.Lock(id); ...; session, err = sessions.Get(id); ... }   (statement of the function body)
+//       if session != nil {                                                                       (statement of the function body)
+//           ... x := e (the once-defined locals) ...
+//           if <stale> { valid = false }          \
+//           if <ip guard> { ... }                  | consecutive statements of this block,
+//           if <ua guard> { valid = e }            | in this order
+//           if !valid { ... } else {              /
+//               if <rotate> { ... } else if <backstop> { ... }      (first statement of the else block)
+//               ...
+//           }
+//       }
+//       ...
+//   }
+//
+// and between the look-up `session, err = sessions.Get(id)` and the end of
+// the backstop condition nothing assigns to `session` or to a field of it, or
+// takes its address, except inside the then-branch of `if !valid` (which is
+// not on the way to the rotation test).
+type pfLayout struct {
+	guard, sess, stale, ip, ua, valid, rotate, backstop *ast.IfStmt
+	lookup                                              ast.Stmt
+}
+
+var pfLayoutMemo = map[*pkg]*pfLayout{}
+var pfLayoutErr = map[*pkg]error{}
+
+func pfStartLayout(p *pkg, start *ast.FuncDecl) (*pfLayout, error) {
+	if l, ok := pfLayoutMemo[p]; ok {
+		return l, pfLayoutErr[p]
+	}
+	l, err := pfStartLayout1(p, start)
+	pfLayoutMemo[p], pfLayoutErr[p] = l, err
+	return l, err
+}
+
+func pfStartLayout1(p *pkg, start *ast.FuncDecl) (*pfLayout, error) {
+	par := pfParents(start.Body)
+	line := func(n ast.Node) string {
+		pos := p.fset.Position(n.Pos())
+		return fmt.Sprintf("session.go:%d `%s`", pos.Line, oneLine(p.text(n)))
+	}
+	one := func(what string, pred func(*ast.IfStmt) bool) (*ast.IfStmt, error) {
+		l := pfIfs(start, pred)
+		if len(l) != 1 {
+			return nil, fmt.Errorf("Start: %s: found %d times, expected exactly once", what, len(l))
+		}
+		return l[0], nil
+	}
+	var err error
+	l := &pfLayout{}
+	if l.stale, err = one("an if statement whose condition mentions SessionExpiry", func(s *ast.IfStmt) bool { return pfMentions(s.Cond, "SessionExpiry") }); err != nil {
+		return nil, err
+	}
+	if l.ip, err = one("an if statement on AcceptRemoteIP whose body compiles the pattern", func(s *ast.IfStmt) bool {
+		return pfMentions(s.Cond, "AcceptRemoteIP") && pfCalls(s.Body, "regexp", "MustCompile")
+	}); err != nil {
+		return nil, err
+	}
+	if l.ua, err = one("an if statement whose condition mentions AcceptChangingUserAgent", func(s *ast.IfStmt) bool { return pfMentions(s.Cond, "AcceptChangingUserAgent") }); err != nil {
+		return nil, err
+	}
+	if l.rotate, err = one("an if statement whose body begins with a call of RegenerateID", func(s *ast.IfStmt) bool {
+		return len(s.Body.List) > 0 && pfCalls(s.Body.List[0], "", "RegenerateID")
+	}); err != nil {
+		return nil, err
+	}
+	if l.guard, err = one("an if statement whose body begins with sessionIDMutexes.Lock", func(s *ast.IfStmt) bool {
+		return len(s.Body.List) > 0 && pfCalls(s.Body.List[0], "sessionIDMutexes", "Lock")
+	}); err != nil {
+		return nil, err
+	}
+	var ok bool
+	if l.backstop, ok = l.rotate.Else.(*ast.IfStmt); !ok {
+		return nil, fmt.Errorf("Start: the rotation test %s is expected to be followed by `else if <backstop> {...}`", line(l.rotate.Cond))
+	}
+	// the block of `if session != nil`
+	block, ok := par[l.stale].(*ast.BlockStmt)
+	if !ok {
+		return nil, fmt.Errorf("Start: the staleness test %s is not a statement of a block", line(l.stale.Cond))
+	}
+	l.sess, ok = par[block].(*ast.IfStmt)
+	if !ok || l.sess.Body != block || l.sess.Init != nil || oneLine(p.text(l.sess.Cond)) != "session != nil" || par[l.sess] != ast.Node(start.Body) {
+		return nil, fmt.Errorf("Start: the staleness test %s is expected to be a statement of the body of `if session != nil`, itself a statement of the function body", line(l.stale.Cond))
+	}
+	idx := -1
+	for i, st := range block.List {
+		if st == ast.Stmt(l.stale) {
+			idx = i
+		}
+	}
+	if idx < 0 || idx+3 >= len(block.List) || block.List[idx+1] != ast.Stmt(l.ip) || block.List[idx+2] != ast.Stmt(l.ua) {
+		return nil, fmt.Errorf("Start: the staleness test, the remote-address block and the user-agent test are expected to be consecutive statements, in this order, of the body of `if session != nil` (found %s, %s, %s)", line(l.stale.Cond), line(l.ip.Cond), line(l.ua.Cond))
+	}
+	l.valid, ok = block.List[idx+3].(*ast.IfStmt)
+	if !ok || l.valid.Init != nil || oneLine(p.text(l.valid.Cond)) != "!valid" {
+		return nil, fmt.Errorf("Start: the user-agent test is expected to be followed by `if !valid {...} else {...}`")
+	}
+	eb, ok := l.valid.Else.(*ast.BlockStmt)
+	if !ok || len(eb.List) == 0 || eb.List[0] != ast.Stmt(l.rotate) {
+		return nil, fmt.Errorf("Start: the rotation test %s is expected to be the first statement of the else branch of `if !valid`", line(l.rotate.Cond))
+	}
+	// the look-up
+	if par[l.guard] != ast.Node(start.Body) || l.guard.Pos() > l.sess.Pos() || l.guard.Init != nil || l.guard.Else != nil {
+		return nil, fmt.Errorf("Start: the look-up guard %s is expected to be a statement of the function body before `if session != nil`, without init or else", line(l.guard.Cond))
+	}
+	for _, st := range l.guard.Body.List {
+		as, ok := st.(*ast.AssignStmt)
+		if !ok || len(as.Lhs) == 0 || len(as.Rhs) != 1 {
+			continue
+		}
+		if id, ok := as.Lhs[0].(*ast.Ident); ok && id.Name == "session" && pfCalls(as.Rhs[0], "sessions", "Get") {
+			if l.lookup != nil {
+				return nil, fmt.Errorf("Start: two look-ups `session, ... = sessions.Get(...)` under the look-up guard")
+			}
+			l.lookup = st
+		}
+	}
+	if l.lookup == nil {
+		return nil, fmt.Errorf("Start: no look-up `session, ... = sessions.Get(...)` as a statement of the look-up guard's body")
+	}
+	// nothing writes the record between the look-up and the last fragment
+	for _, w := range pfRecWrites(start.Body, "session") {
+		if w.Pos() <= l.lookup.Pos() || w.Pos() >= l.backstop.Cond.End() {
+			continue
+		}
+		if w.Pos() >= l.valid.Body.Pos() && w.End() <= l.valid.Body.End() {
+			continue
+		}
+		return nil, fmt.Errorf("Start: `session` or one of its fields is written between the look-up and the translated conditions: %s", line(w))
+	}
+	return l, nil
+}
+
+// pfCompactLayout: the idle test is a statement of the body of `for id,
+// session := range c.sessions`, itself a statement of compact's body, and
+// nothing in that body writes `session` or a field of it before the test.
+func pfCompactLayout(p *pkg, fd *ast.FuncDecl, idle *ast.IfStmt) error {
+	par := pfParents(fd.Body)
+	block, ok := par[idle].(*ast.BlockStmt)
+	var rng *ast.RangeStmt
+	if ok {
+		rng, ok = par[block].(*ast.RangeStmt)
+	}
+	if !ok || rng.Body != block || par[rng] != ast.Node(fd.Body) || oneLine(p.text(rng.X)) != "c.sessions" {
+		return fmt.Errorf("compact: the idle test is expected to be a statement of the body of `for ..., session := range c.sessions`, itself a statement of the function body")
+	}
+	if v, ok := rng.Value.(*ast.Ident); !ok || v.Name != "session" || rng.Tok != token.DEFINE {
+		return fmt.Errorf("compact: the loop over c.sessions is expected to bind the session as `session`")
+	}
+	for _, w := range pfRecWrites(block, "session") {
+		if w.Pos() < idle.Cond.End() {
+			pos := p.fset.Position(w.Pos())
+			return fmt.Errorf("compact: `session` or one of its fields is written before the idle test: cache.go:%d `%s`", pos.Line, oneLine(p.text(w)))
+		}
+	}
+	return nil
+}
+
 func pfComment(s string) string {
 	s = strings.ReplaceAll(s, "(*", "( *")
 	s = strings.ReplaceAll(s, "*)", "* )")
 	return strings.ReplaceAll(s, `"`, "'")
 }
 
+// pfMark: an AST node (by position) whose meaning is carried by a generated
+// function. translator/shape.go and translator/addr_re.go print a placeholder
+// for exactly these nodes instead of their source text.
+type pfMark struct {
+	pos  token.Pos
+	name string
+}
+
+func (e *pfEnv) note(n ast.Node) {
+	if e.mark != nil && e.fn != "" {
+		e.mark(n, e.fn)
+	}
+}
+
+var pfMarksMemo = map[*pkg]map[token.Pos]string{}
+
+// pfTranslatedNodes: position -> "gen_x (Gen/File.v)" for every node that the
+// generators PureFn and PureFnIP translated on this tree. A generator that
+// fails contributes nothing (its Gen file does not compile, and the text pins
+// keep guarding the source text).
+func pfTranslatedNodes(p *pkg) map[token.Pos]string {
+	if m, ok := pfMarksMemo[p]; ok {
+		return m
+	}
+	m := map[token.Pos]string{}
+	for _, g := range []struct {
+		file string
+		gen  func(*pkg, *[]pfMark) (string, error)
+	}{{"Gen/PureFn.v", genPureFnM}, {"Gen/PureFnIP.v", genPureFnIPM}} {
+		var marks []pfMark
+		if _, err := g.gen(p, &marks); err != nil {
+			continue
+		}
+		for _, k := range marks {
+			m[k.pos] = k.name + " (" + g.file + ")"
+		}
+	}
+	pfMarksMemo[p] = m
+	return m
+}
+
+// pfPlaceholder: the text printed instead of a translated node.
+func pfPlaceholder(p *pkg, n ast.Node) (string, bool) {
+	if n == nil {
+		return "", false
+	}
+	name, ok := pfTranslatedNodes(p)[n.Pos()]
+	if !ok {
+		return "", false
+	}
+	return "<translated: " + name + ">", true
+}
+
 func genPureFn(p *pkg) (string, error) {
+	var marks []pfMark
+	return genPureFnM(p, &marks)
+}
+
+func genPureFnM(p *pkg, marks *[]pfMark) (string, error) {
+	mark := func(n ast.Node, name string) { *marks = append(*marks, pfMark{n.Pos(), name}) }
 	var b strings.Builder
 	b.WriteString("(* Generated from /repo/*.go by /verif/translator (purefn.go). Do not edit.\n")
 	b.WriteString("   The pure decision code of the package translated from the Go AST (the subset\n")
@@ -616,7 +950,7 @@ func genPureFn(p *pkg) (string, error) {
 	b.WriteString("From Sessions Require Import Model.Base Model.Sess.\nLocal Open Scope Z_scope.\n\n")
 
 	newEnv := func(where string, recs ...string) *pfEnv {
-		e := &pfEnv{p: p, where: where, recs: map[string]bool{}, bound: map[string]pfVal{}, inline: map[string]ast.Expr{}, busy: map[string]bool{}}
+		e := &pfEnv{p: p, where: where, recs: map[string]bool{}, bound: map[string]pfVal{}, inline: map[string]ast.Expr{}, busy: map[string]bool{}, mark: mark}
 		for _, r := range recs {
 			e.recs[r] = true
 		}
@@ -643,6 +977,7 @@ func genPureFn(p *pkg) (string, error) {
 			return "", fmt.Errorf("func addDurations not found")
 		}
 		e := newEnv("addDurations")
+		e.fn = "gen_addDurations"
 		var params []string
 		for _, f := range fd.Type.Params.List {
 			if !durParam(e, f) {
@@ -677,6 +1012,7 @@ func genPureFn(p *pkg) (string, error) {
 			return "", fmt.Errorf("Expired: expected func() bool, found %s", oneLine(p.text(fd.Type)))
 		}
 		e := newEnv("Session.Expired", fd.Recv.List[0].Names[0].Name)
+		e.fn = "gen_Expired"
 		term, err := e.body(fd.Body.List, pfBool, "  ")
 		if err != nil {
 			return "", err
@@ -689,6 +1025,10 @@ func genPureFn(p *pkg) (string, error) {
 	start := p.funcDecl("", "Start")
 	if start == nil || start.Body == nil {
 		return "", fmt.Errorf("func Start not found")
+	}
+	lay, err := pfStartLayout(p, start)
+	if err != nil {
+		return "", err
 	}
 	one := func(what string, l []*ast.IfStmt) (*ast.IfStmt, error) {
 		if len(l) != 1 {
@@ -736,10 +1076,7 @@ func genPureFn(p *pkg) (string, error) {
 
 	// staleness
 	{
-		s, err := one("Start: an if statement whose condition mentions SessionExpiry", pfIfs(start, func(s *ast.IfStmt) bool { return pfMentions(s.Cond, "SessionExpiry") }))
-		if err != nil {
-			return "", err
-		}
+		s := lay.stale
 		e, err := fragEnv("Start, staleness test", start)
 		if err != nil {
 			return "", err
@@ -752,16 +1089,12 @@ func genPureFn(p *pkg) (string, error) {
 		if err != nil {
 			return "", err
 		}
+		mark(s.Cond, "gen_stale")
 		emitCond("gen_stale", "session.go, Start: if "+oneLine(p.text(s.Cond))+" { valid = false }", e, term, "")
 	}
 	// rotation and backstop
 	{
-		s, err := one("Start: an if statement whose body begins with a call of RegenerateID", pfIfs(start, func(s *ast.IfStmt) bool {
-			return len(s.Body.List) > 0 && pfCalls(s.Body.List[0], "", "RegenerateID")
-		}))
-		if err != nil {
-			return "", err
-		}
+		s := lay.rotate
 		e, err := fragEnv("Start, rotation test", start)
 		if err != nil {
 			return "", err
@@ -773,6 +1106,7 @@ func genPureFn(p *pkg) (string, error) {
 		if err != nil {
 			return "", err
 		}
+		mark(s.Cond, "gen_rotate")
 		emitCond("gen_rotate", "session.go, Start: if "+oneLine(p.text(s.Cond))+" { err = session.RegenerateID(response) ... }", e, term, "")
 
 		el, ok := s.Else.(*ast.IfStmt)
@@ -790,14 +1124,12 @@ func genPureFn(p *pkg) (string, error) {
 		if err != nil {
 			return "", err
 		}
+		mark(el.Cond, "gen_backstop")
 		emitCond("gen_backstop", "session.go, Start: else if "+oneLine(p.text(el.Cond))+" { sessions.Delete(id); return nil, errors.New(...) }", e2, term2, "")
 	}
 	// user agent
 	{
-		s, err := one("Start: an if statement whose condition mentions AcceptChangingUserAgent", pfIfs(start, func(s *ast.IfStmt) bool { return pfMentions(s.Cond, "AcceptChangingUserAgent") }))
-		if err != nil {
-			return "", err
-		}
+		s := lay.ua
 		e, err := fragEnv("Start, user-agent rule", start)
 		if err != nil {
 			return "", err
@@ -818,6 +1150,7 @@ func genPureFn(p *pkg) (string, error) {
 		if err != nil {
 			return "", err
 		}
+		mark(s.Cond, "gen_ua_ok")
 		emitCond("gen_ua_ok", "session.go, Start: if "+oneLine(p.text(s.Cond))+" { valid = "+oneLine(p.text(rhs))+" } - the value of valid afterwards", e,
 			"if "+c+"\n  then "+v+"\n  else v_valid", " (v_valid : bool) (v_agentHash : N)")
 	}
@@ -838,13 +1171,17 @@ func genPureFn(p *pkg) (string, error) {
 		if s.Init != nil || s.Else != nil || !pfCalls(s.Body, "Persistence", "SaveSession") || !pfCalls(s.Body, "", "delete") {
 			return "", e.errf(s, "the if statement on SessionCacheExpiry is expected to save the session and delete it from the cache, without init or else")
 		}
-		// the once-defined locals of compact are defined inside the range
-		// loop over the cache: the definition must stand in the same block,
-		// before the if statement
+		// where the test stands, and that the record is not written before it;
+		// the once-defined locals it uses must be defined before it in a block
+		// enclosing it (checked where they are inlined)
+		if err := pfCompactLayout(p, fd, s); err != nil {
+			return "", err
+		}
 		term, err := cond(e, s.Cond)
 		if err != nil {
 			return "", err
 		}
+		mark(s.Cond, "gen_idle")
 		emitCond("gen_idle", "cache.go, compact: if "+oneLine(p.text(s.Cond))+" { Persistence.SaveSession(id, session); delete(c.sessions, id) }", e, term, "")
 	}
 	return b.String(), nil
@@ -883,6 +1220,12 @@ func init() {
 }
 
 func genPureFnIP(p *pkg) (string, error) {
+	var marks []pfMark
+	return genPureFnIPM(p, &marks)
+}
+
+func genPureFnIPM(p *pkg, marks *[]pfMark) (string, error) {
+	mark := func(n ast.Node, name string) { *marks = append(*marks, pfMark{n.Pos(), name}) }
 	var b strings.Builder
 	b.WriteString("(* Generated from /repo/*.go by /verif/translator (purefn.go, generator PureFnIP).\n")
 	b.WriteString("   Do not edit. The remote-address block and the look-up guard of Start translated\n")
@@ -896,6 +1239,10 @@ func genPureFnIP(p *pkg) (string, error) {
 	start := p.funcDecl("", "Start")
 	if start == nil || start.Body == nil {
 		return "", fmt.Errorf("func Start not found")
+	}
+	lay, err := pfStartLayout(p, start)
+	if err != nil {
+		return "", err
 	}
 	newEnv := func(where string) (*pfEnv, error) {
 		e := &pfEnv{p: p, where: where, recs: map[string]bool{"session": true}, bound: map[string]pfVal{}, inline: map[string]ast.Expr{}, busy: map[string]bool{}}
@@ -923,13 +1270,7 @@ func genPureFnIP(p *pkg) (string, error) {
 		if err != nil {
 			return "", err
 		}
-		outer := pfIfs(start, func(s *ast.IfStmt) bool {
-			return pfMentions(s.Cond, "AcceptRemoteIP") && pfCalls(s.Body, "regexp", "MustCompile")
-		})
-		if len(outer) != 1 {
-			return "", fmt.Errorf("Start: an if statement on AcceptRemoteIP whose body compiles the pattern: found %d times, expected exactly once", len(outer))
-		}
-		o := outer[0]
+		o := lay.ip
 		if o.Init != nil || o.Else != nil {
 			return "", e.errf(o, "the if statement around the address pattern has an init clause or an else")
 		}
@@ -1010,6 +1351,8 @@ func genPureFnIP(p *pkg) (string, error) {
 		e.bound["valid"] = pfVal{"v_valid", pfBool}
 		e.bound[prevName] = pfVal{"v_" + prevName, pfCaps}
 		e.bound[curName] = pfVal{"v_" + curName, pfCaps}
+		mark(o.Cond, "gen_ip_ok")
+		mark(inner.Cond, "gen_ip_ok")
 		g1, err := boolOf(e, o.Cond)
 		if err != nil {
 			return "", err
@@ -1047,6 +1390,8 @@ func genPureFnIP(p *pkg) (string, error) {
 		}
 		delete(e.inline, iv.Name)
 		e.bound[iv.Name] = pfVal{"v_" + iv.Name, pfDur}
+		mark(loop, "gen_ip_loop")
+		mark(loop.Cond, "gen_ip_loop")
 		lc, err := boolOf(e, loop.Cond)
 		if err != nil {
 			return "", err
@@ -1063,6 +1408,7 @@ func genPureFnIP(p *pkg) (string, error) {
 		if !ok || !ok2 || as.Tok != token.ASSIGN || len(as.Lhs) != 1 || len(as.Rhs) != 1 || p.text(as.Lhs[0]) != "valid" || br.Tok != token.BREAK || br.Label != nil {
 			return "", e.errf(bi, "loop body other than `if B { valid = E; break }`")
 		}
+		mark(bi.Cond, "gen_ip_loop")
 		bv, err := e.expr(bi.Cond)
 		if err != nil {
 			return "", err
@@ -1102,13 +1448,7 @@ func genPureFnIP(p *pkg) (string, error) {
 		if err != nil {
 			return "", err
 		}
-		l := pfIfs(start, func(s *ast.IfStmt) bool {
-			return len(s.Body.List) > 0 && pfCalls(s.Body.List[0], "sessionIDMutexes", "Lock")
-		})
-		if len(l) != 1 {
-			return "", fmt.Errorf("Start: an if statement whose body begins with sessionIDMutexes.Lock: found %d times, expected exactly once", len(l))
-		}
-		s := l[0]
+		s := lay.guard
 		if s.Init != nil || s.Else != nil {
 			return "", e.errf(s, "the look-up guard has an init clause or an else")
 		}
@@ -1126,6 +1466,7 @@ func genPureFnIP(p *pkg) (string, error) {
 		}
 		delete(e.inline, arg)
 		e.bound[arg] = pfVal{"v_" + arg, pfStr}
+		mark(s.Cond, "gen_lookup_guard")
 		g, err := boolOf(e, s.Cond)
 		if err != nil {
 			return "", err
